@@ -263,6 +263,9 @@ func ledgerExec1(op string) string {
 		world.nodes[n.name] = nn
 		return "Rok " + digest(nn)
 	}
+	if f[0] == "c8rebuild" && len(f) == 4 {
+		return c8Rebuild(int(PU64(f[1])), f[2], PU64(f[3]))
+	}
 	if r, ok := execExtra(f); ok {
 		return r
 	}
